@@ -41,10 +41,18 @@ def allele_variants(g, major, minor=None):
     return muts
 
 
-def all_copies(g, with_minors=True):
+def callable_allele(g, major):
+    """False for an allele defined with a core variant in a region its own structure lacks (a fusion allele
+    with a core variant in the part the fusion loses can never show that variant)."""
+    return all(g.has_coverage(major, m.pos) for m in g.alleles[major].func_muts)
+
+
+def all_copies(g, with_minors=True, only_callable=True):
     """[(major, minor)] for every catalogued allele (deletion allele included if it has a minor)."""
     out = []
     for an, a in g.alleles.items():
+        if only_callable and not callable_allele(g, an):
+            continue
         for mn in a.minors:
             out.append((an, mn))
     return out
@@ -107,7 +115,7 @@ def noisy(counts, rng, eps):
     return out
 
 
-def make_coverage(g, counts, profile=None, quals=(60, 60), lowq=None, phases=None, **params):
+def make_coverage(g, counts, profile=None, quals=(60, 60), lowq=None, phases=None, indels=None, **params):
     """Coverage object from integer counts. lowq: {pos: {op: [(mq, q), ...]}} extra observations."""
     from aldy.coverage import Coverage
     from aldy.profile import Profile
@@ -122,7 +130,7 @@ def make_coverage(g, counts, profile=None, quals=(60, 60), lowq=None, phases=Non
     for p, ops in (lowq or {}).items():
         for op, lst in ops.items():
             cov[p][op] = list(cov[p].get(op, [])) + [tuple(x) for x in lst]
-    c = Coverage(g, profile, None, dict(cov), None, {})
+    c = Coverage(g, profile, None, dict(cov), indels, {})
     if phases is not None:
         c.sam = Sample.__new__(Sample)
         c.sam.phases = phases
@@ -142,3 +150,24 @@ def region_depths(g, configs, extra_pseudo=0):
                 b += cn[1][r] if i < 2 else max(0, cn[1][r] - 1)
         out[r] = (a, b + extra_pseudo)
     return out
+
+
+def split_indel_table(g, counts, rng, scale_choices=(1.0, 1.0, 0.7, 1.4)):
+    """Move the counts of catalogued insertions / deletions into a realigner-style table
+    {(pos, op): [non-supporting, supporting]} whose total may differ from the pile-up depth (the ratio, i.e. the
+    observed copy number, is kept up to rounding).  Returns (counts without insertion cells, table)."""
+    table = {}
+    out = {p: dict(ops) for p, ops in counts.items()}
+    for (p, op) in g.mutations:
+        if op[:3] not in ("ins", "del") or p not in out:
+            continue
+        ops = out[p]
+        on = ops.get(op, 0)
+        depth = sum(n for o, n in ops.items() if o[:3] != "ins")
+        if op.startswith("del"):
+            off = depth - on
+        else:
+            off = depth - min(on, depth)
+        sc = rng.choice(scale_choices)
+        table[(p, op)] = [max(0, int(round(off * sc))), int(round(on * sc))]
+    return out, table
